@@ -633,6 +633,9 @@ def AddsFp (fp : Fp) : Op → Prop
   | .replace _ c => c.fp = fp
   | _ => False
 
+instance (fp : Fp) (op : Op) : Decidable (AddsFp fp op) := by
+  cases op <;> unfold AddsFp <;> exact inferInstance
+
 theorem get_certs_apply_none (s : State) (op : Op) (fp : Fp) (h : KMap.get? s.certs fp = none)
     (hop : ¬ AddsFp fp op) : KMap.get? (apply s op).certs fp = none := by
   cases op with
@@ -959,5 +962,625 @@ theorem count_dot_lower (x : Bytes) : (lower x).count DOT = x.count DOT := by
       simp [hb, this]
 
 theorem lower_length (x : Bytes) : (lower x).length = x.length := by simp [lower]
+
+
+-- =============================================================== part 3 ==
+-- proofs of the property theorems (`p_x` is restated as `C17_x` in Props.lean)
+
+/-- a certificate name covers the server name `N` -/
+def Covers (name N : Bytes) : Prop := name = N ∨ name = wildOf N
+
+/-- the certificate covers the server name `N` -/
+def CertCovers (c : Cert) (N : Bytes) : Prop := ∃ name ∈ c.names, Covers name N
+
+-- ------------------------------------------------------------ invariant --
+
+/-- After every history of add / remove / replace (re-adds, refused names,
+    idempotent replace, absent or unparsable old fingerprint, failing PEM) the
+    trie, the per-name index and the store agree (`Agree`). -/
+theorem p_agree_invariant (ops : List Op) : Agree (run init ops) :=
+  agree_run ops init agree_init
+
+/-- no history makes the resolver panic -/
+theorem p_no_panic (ops : List Op) : (run init ops).dead = false :=
+  (p_agree_invariant ops).a.alive
+
+/-- a certificate whose names `try_from` refuses leaves the resolver unchanged
+    (add and replace alike; the old certificate of the replace stays) -/
+theorem p_rejected_add_unchanged (ops : List Op) (c : Cert) (old : Option Fp)
+    (h : prepare c = none) :
+    step (run init ops) (.add c) = (run init ops, .err) ∧
+    step (run init ops) (.replace old c) = (run init ops, .err) := by
+  have hd := p_no_panic ops
+  simp [step, hd, h]
+
+-- ------------------------------------------------------------- resolve --
+
+/-- state-level form of `p_resolve_sound` -/
+theorem resolve_sound_of_agree (re : Bytes → Bytes → Bool) {s : State} (h : Agree s) {N : Bytes}
+    (hN : GoodHost N) {fp : Fp} (hr : resolve re s (some N) = .cert fp) :
+    ∃ c, Stored s c ∧ c.fp = fp ∧
+      ((N ∈ c.names ∧ ∀ c', Stored s c' → N ∈ c'.names → c'.exp ≤ c.exp) ∨
+       ((∀ c', Stored s c' → N ∉ c'.names) ∧ wildOf N ∈ c.names ∧
+          ∀ c', Stored s c' → wildOf N ∈ c'.names → c'.exp ≤ c.exp)) := by
+  simp only [resolve, lookup_agree re h hN] at hr
+  cases h1 : (idxGet s N).getLast? with
+  | some p =>
+    obtain ⟨c, hs, hfp, hn, _, hmax⟩ := last_is_longest h h1
+    simp only [lastKV, h1, Option.map_some, Option.orElse_some] at hr
+    split at hr
+    · cases hr; exact ⟨c, hs, hfp, Or.inl ⟨hn, hmax⟩⟩
+    · cases hr
+  | none =>
+    have hno := (idx_nil_iff h N).mp h1
+    simp only [lastKV, h1, Option.map_none, Option.orElse_none] at hr
+    cases h2 : (idxGet s (wildOf N)).getLast? with
+    | some p =>
+      obtain ⟨c, hs, hfp, hn, _, hmax⟩ := last_is_longest h h2
+      simp only [h2, Option.map_some] at hr
+      split at hr
+      · cases hr; exact ⟨c, hs, hfp, Or.inr ⟨hno, hn, hmax⟩⟩
+      · cases hr
+    | none => simp [h2] at hr
+
+/-- **Soundness of the served certificate.** For every history and every server
+    name `N`: if `resolve` hands rustls the certificate with fingerprint `fp`
+    then a certificate `c` with that fingerprint is currently stored and
+    * either `N` itself is one of its names, and no stored certificate naming
+      `N` expires later (exact name, longest-lived among equals),
+    * or no stored certificate names `N` exactly, the wildcard `wildOf N` is one
+      of its names, and no stored certificate carrying that wildcard expires
+      later (wildcard only when there is no exact name). -/
+theorem p_resolve_sound (re : Bytes → Bytes → Bool) (ops : List Op)
+    (N : Bytes) (hN : GoodHost N) (fp : Fp) (hr : resolve re (run init ops) (some N) = .cert fp) :
+    ∃ c, Stored (run init ops) c ∧ c.fp = fp ∧ CertCovers c N ∧
+      ((N ∈ c.names ∧ ∀ c', Stored (run init ops) c' → N ∈ c'.names → c'.exp ≤ c.exp) ∨
+       ((∀ c', Stored (run init ops) c' → N ∉ c'.names) ∧ wildOf N ∈ c.names ∧
+          ∀ c', Stored (run init ops) c' → wildOf N ∈ c'.names → c'.exp ≤ c.exp)) := by
+  obtain ⟨c, hs, hfp, hd⟩ := resolve_sound_of_agree re (p_agree_invariant ops) hN hr
+  refine ⟨c, hs, hfp, ?_, hd⟩
+  rcases hd with ⟨hn, _⟩ | ⟨_, hn, _⟩
+  · exact ⟨N, hn, Or.inl rfl⟩
+  · exact ⟨wildOf N, hn, Or.inr rfl⟩
+
+/-- `resolve` never answers `None` for a server name: the trie never names a
+    fingerprint that is not stored (no dangling fingerprint). -/
+theorem p_resolve_never_dangling (re : Bytes → Bytes → Bool) (ops : List Op)
+    (N : Bytes) (hN : GoodHost N) :
+    resolve re (run init ops) (some N) ≠ .nothing := by
+  have h := p_agree_invariant ops
+  intro hr
+  simp only [resolve, lookup_agree re h hN] at hr
+  cases h1 : (idxGet (run init ops) N).getLast? with
+  | some p =>
+    obtain ⟨c, hs, hfp, _⟩ := last_is_longest h h1
+    simp only [lastKV, h1, Option.map_some, Option.orElse_some] at hr
+    have : KMap.contains (run init ops).certs p.1 = true := by
+      rw [← hfp]; simp [KMap.contains, show KMap.get? (run init ops).certs c.fp = some c from hs]
+    simp [this] at hr
+  | none =>
+    simp only [lastKV, h1, Option.map_none, Option.orElse_none] at hr
+    cases h2 : (idxGet (run init ops) (wildOf N)).getLast? with
+    | some p =>
+      obtain ⟨c, hs, hfp, _⟩ := last_is_longest h h2
+      simp only [h2, Option.map_some] at hr
+      have : KMap.contains (run init ops).certs p.1 = true := by
+        rw [← hfp]; simp [KMap.contains, show KMap.get? (run init ops).certs c.fp = some c from hs]
+      simp [this] at hr
+    | none => simp [h2] at hr
+
+/-- **Default certificate only when nothing covers.** `resolve` falls back to
+    `DEFAULT_CERTIFICATE` exactly when no stored certificate covers `N`. -/
+theorem p_default_only_if_uncovered (re : Bytes → Bytes → Bool) (ops : List Op)
+    (N : Bytes) (hN : GoodHost N) :
+    resolve re (run init ops) (some N) = .default ↔
+      ¬ ∃ c, Stored (run init ops) c ∧ CertCovers c N := by
+  have h := p_agree_invariant ops
+  constructor
+  · intro hr
+    simp only [resolve, lookup_agree re h hN] at hr
+    rintro ⟨c, hs, name, hn, hc⟩
+    cases h1 : (idxGet (run init ops) N).getLast? with
+    | some p =>
+      simp only [lastKV, h1, Option.map_some, Option.orElse_some] at hr
+      split at hr <;> cases hr
+    | none =>
+      simp only [lastKV, h1, Option.map_none, Option.orElse_none] at hr
+      cases h2 : (idxGet (run init ops) (wildOf N)).getLast? with
+      | some p =>
+        simp only [h2, Option.map_some] at hr
+        split at hr <;> cases hr
+      | none =>
+        rcases hc with rfl | rfl
+        · exact (idx_nil_iff h _).mp h1 c hs hn
+        · exact (idx_nil_iff h _).mp h2 c hs hn
+  · intro hno
+    cases hr : resolve re (run init ops) (some N) with
+    | default => rfl
+    | nothing => exact absurd hr (p_resolve_never_dangling re ops N hN)
+    | cert fp =>
+      obtain ⟨c, hs, _, hc, _⟩ := p_resolve_sound re ops N hN fp hr
+      exact absurd ⟨c, hs, hc⟩ hno
+
+-- -------------------------------------------------------------- removal --
+
+/-- `resolve` only ever answers with a fingerprint that is in the store -/
+theorem resolve_cert_stored (re : Bytes → Bytes → Bool) (s : State) (N : Bytes) (fp : Fp)
+    (hnone : KMap.get? s.certs fp = none) : resolve re s (some N) ≠ .cert fp := by
+  intro hr
+  simp only [resolve] at hr
+  split at hr
+  · next kv _ =>
+    split at hr
+    · next hc =>
+      cases hr
+      simp [KMap.contains, hnone] at hc
+    · cases hr
+  · cases hr
+
+/-- **A removed certificate is never served again**: after `remove fp`, and for
+    as long as no later op loads that fingerprint again, no server name at all
+    (no restriction on `N`) is answered with it. -/
+theorem p_removed_never_served (re : Bytes → Bytes → Bool) (ops1 ops2 : List Op) (fp : Fp)
+    (hn : ∀ op ∈ ops2, ¬ AddsFp fp op) (N : Bytes) :
+    resolve re (run init (ops1 ++ [Op.remove fp] ++ ops2)) (some N) ≠ .cert fp := by
+  have ha1 := p_agree_invariant ops1
+  have hrm : run init (ops1 ++ [Op.remove fp]) = remove (run init ops1) fp := by
+    rw [run_append]
+    simp only [run, List.foldl_cons, List.foldl_nil]
+    exact step_eq_apply ha1 (.remove fp)
+  have ha2 : Agree (remove (run init ops1) fp) := agree_remove ha1 fp
+  have hnone : KMap.get? (run init (ops1 ++ [Op.remove fp] ++ ops2)).certs fp = none := by
+    rw [run_append, hrm]
+    exact not_stored_run fp ops2 _ ha2 (by rw [get_certs_remove]; simp) hn
+  exact resolve_cert_stored re _ N fp hnone
+
+-- ------------------------------------------------------------- replace --
+
+/-- a handshake for `N` would be answered with a stored certificate -/
+def Covered (re : Bytes → Bytes → Bool) (s : State) (N : Bytes) : Prop :=
+  ∃ fp, resolve re s (some N) = .cert fp
+
+theorem covered_iff_stored (re : Bytes → Bytes → Bool) {s : State} (h : Agree s) {N : Bytes}
+    (hN : GoodHost N) : Covered re s N ↔ TrieCovered re s N := by
+  unfold Covered TrieCovered resolve
+  constructor
+  · rintro ⟨fp, hr⟩
+    cases hl : domainLookup re s N true with
+    | none => simp [hl] at hr
+    | some kv => rfl
+  · intro hc
+    cases hl : domainLookup re s N true with
+    | none => simp [hl] at hc
+    | some kv =>
+      have hl' := hl
+      rw [lookup_agree re h hN] at hl'
+      have hst : KMap.contains s.certs kv.2 = true := by
+        cases h1 : (idxGet s N).getLast? with
+        | some p =>
+          obtain ⟨c, hs, hfp, _⟩ := last_is_longest h h1
+          simp only [lastKV, h1, Option.map_some, Option.orElse_some, Option.some.injEq] at hl'
+          rw [← hl', ← hfp]; simp [KMap.contains, show KMap.get? s.certs c.fp = some c from hs]
+        | none =>
+          simp only [lastKV, h1, Option.map_none, Option.orElse_none] at hl'
+          cases h2 : (idxGet s (wildOf N)).getLast? with
+          | some p =>
+            obtain ⟨c, hs, hfp, _⟩ := last_is_longest h h2
+            simp only [h2, Option.map_some, Option.some.injEq] at hl'
+            rw [← hl', ← hfp]; simp [KMap.contains, show KMap.get? s.certs c.fp = some c from hs]
+          | none => simp [h2] at hl'
+      exact ⟨kv.2, by simp [hl, hst]⟩
+
+/-- **Replacing never opens a gap (between the two steps).** `replace` is
+    `add new` then `remove old`; in the state between the two a server name that
+    was answered with a stored certificate before still is (so a name covered
+    before and after is covered throughout). -/
+theorem p_replace_no_gap (re : Bytes → Bytes → Bool) (ops : List Op)
+    (c0 c : Cert) (hp : prepare c0 = some c) (N : Bytes) (hN : GoodHost N)
+    (hbefore : Covered re (run init ops) N) : Covered re (add (run init ops) c) N := by
+  have hc := (prepare_good hp).2.2.2
+  have h := p_agree_invariant ops
+  have h' := agree_add h c hc
+  rw [covered_iff_stored re h' hN]
+  rw [covered_iff_stored re h hN] at hbefore
+  exact addTrace_covered re h c hc hN hbefore _ (by
+    unfold addTrace
+    split
+    · next hcon => simp [add, hcon]
+    · simp)
+
+/-- **Replacing never opens a gap (name by name).** In *every* state the
+    resolver goes through inside one `replace_certificate` — after each name of
+    the `add_certificate` loop, after the store insert, after each name of the
+    `remove_certificate` loop — the trie still finds a fingerprint for every
+    server name it found one for before the replace and finds one for after it. -/
+theorem p_replace_no_gap_stepwise (re : Bytes → Bytes → Bool) (ops : List Op)
+    (old : Option Fp) (c0 c : Cert) (hp : prepare c0 = some c)
+    (N : Bytes) (hN : GoodHost N)
+    (hbefore : TrieCovered re (run init ops) N)
+    (hafter : TrieCovered re (replace (run init ops) old c) N) :
+    ∀ s' ∈ replaceTrace (run init ops) old c, TrieCovered re s' N := by
+  have hc := (prepare_good hp).2.2.2
+  have h := p_agree_invariant ops
+  intro s' hs'
+  unfold replaceTrace at hs'
+  unfold replace at hafter
+  split at hs'
+  · simp at hs'; subst hs'; exact hbefore
+  · next hne =>
+    simp only [hne, if_false] at hafter
+    cases old with
+    | none => exact addTrace_covered re h c hc hN hbefore s' hs'
+    | some o =>
+      simp only [] at hs' hafter
+      rcases List.mem_append.mp hs' with hm | hm
+      · exact addTrace_covered re h c hc hN hbefore s' hm
+      · exact removeTrace_covered re (agree_add h c hc) o hN hafter s' hm
+
+-- ---------------------------------------------------------- strict SNI --
+
+/-- **The certificate-name predicate is exactly RFC 6125 coverage.**
+    `authority_matched_cert_name` accepts iff the request host (port stripped,
+    one trailing dot stripped) is non-empty and some name of the snapshot covers
+    it: equal up to ASCII case when the name has no `*`, or the name is `*.` + a
+    `*`-free suffix and the host is exactly one non-empty label + `.` + that
+    suffix (no apex match, no deeper label, no embedded wildcard). -/
+theorem p_strict_sni_iff (authority : Bytes) (names : List Bytes) :
+    (matchedCertName authority names).isSome = true ↔
+      hostOf authority ≠ [] ∧ ∃ e ∈ names, SniCovers e (hostOf authority) := by
+  unfold matchedCertName
+  simp only []
+  by_cases he : hostOf authority = []
+  · simp [he]
+  · have : (hostOf authority).isEmpty = false := by
+      cases h : hostOf authority with
+      | nil => exact absurd h he
+      | cons _ _ => rfl
+    simp only [this, Bool.false_eq_true, if_false, List.find?_isSome, ne_eq, he, not_false_eq_true,
+      true_and]
+    constructor
+    · rintro ⟨e, hm, hx⟩; exact ⟨e, hm, (entryMatches_iff _ _).mp hx⟩
+    · rintro ⟨e, hm, hx⟩; exact ⟨e, hm, (entryMatches_iff _ _).mpr hx⟩
+
+/-- a wildcard name never covers its own apex -/
+theorem p_strict_sni_no_apex (suf h : Bytes) (hh : lower h = lower suf) :
+    ¬ SniCovers (STAR :: DOT :: suf) h := by
+  rintro (⟨h1, _⟩ | ⟨suf', lm, rest, h1, _, h3, _, _, h6⟩)
+  · exact h1 (by simp)
+  · cases h1
+    have l1 := congrArg List.length hh
+    have l2 := congrArg List.length h6
+    simp only [lower_length] at l1 l2
+    rw [h3] at l1
+    simp at l1
+    omega
+
+/-- a wildcard name covers exactly one extra label: the host has one more dot
+    than the suffix (no match across dots, no deeper sub-domain) -/
+theorem p_strict_sni_one_label (suf h : Bytes) (hc : SniCovers (STAR :: DOT :: suf) h) :
+    h.count DOT = suf.count DOT + 1 := by
+  rcases hc with ⟨h1, _⟩ | ⟨suf', lm, rest, h1, _, h3, _, h5, h6⟩
+  · exact absurd (by simp) h1
+  · cases h1
+    have hc := congrArg (List.count DOT) h6
+    rw [count_dot_lower, count_dot_lower] at hc
+    rw [h3, List.count_append, List.count_cons, List.count_eq_zero_of_not_mem h5, hc]
+    simp
+
+/-- the name returned is one of the snapshot and covers the host -/
+theorem p_strict_sni_matched (authority : Bytes) (names : List Bytes) (e : Bytes)
+    (h : matchedCertName authority names = some e) : e ∈ names ∧ SniCovers e (hostOf authority) := by
+  unfold matchedCertName at h
+  simp only [] at h
+  split at h
+  · cases h
+  · exact ⟨List.mem_of_find?_eq_some h, (entryMatches_iff _ _).mp (List.find?_some h)⟩
+
+/-- the legacy predicate: the host (port stripped) equals the SNI up to ASCII
+    case of the authority -/
+theorem p_strict_sni_exact (authority sni : Bytes) :
+    matchesSni authority sni = true ↔ lower (stripPort authority) = sni :=
+  matchesSni_iff authority sni
+
+/-- **Strict SNI binding on a connection that was served a loaded certificate.**
+    For every history: when the handshake for SNI `N` found a loaded certificate
+    (the snapshot is `some`), a request is let through to routing only if its
+    authority is covered (RFC 6125, `SniCovers`) by a name of *the certificate
+    that `resolve` served for `N`*, normalised as `upgrade_handshake` does.
+    `_partial`: the hypothesis `snapshot … = some ns` excludes the connections
+    that were served the default certificate, see the counterexample below. -/
+theorem p_strict_sni_partial (re : Bytes → Bytes → Bool) (ops : List Op)
+    (N : Bytes) (hN : GoodHost N) (ns : List Bytes)
+    (hsnap : snapshot re (run init ops) (some N) = some ns) (authority : Bytes)
+    (hallow : routeAllowed true (some N) (some ns) authority = true) :
+    ∃ c, Stored (run init ops) c ∧ resolve re (run init ops) (some N) = .cert c.fp ∧ CertCovers c N ∧
+      ∃ name ∈ c.names, SniCovers (normName name) (hostOf authority) := by
+  have h := p_agree_invariant ops
+  simp only [snapshot, namesForSni] at hsnap
+  cases hl : domainLookup re (run init ops) N true with
+  | none => simp [hl] at hsnap
+  | some kv =>
+    simp only [hl] at hsnap
+    cases hg : KMap.get? (run init ops).certs kv.2 with
+    | none => simp [hg] at hsnap
+    | some c =>
+      simp only [hg, Option.map_some] at hsnap
+      split at hsnap
+      · cases hsnap
+      · cases hsnap
+        have hk : c.fp = kv.2 := h.keyed kv.2 c hg
+        have hres : resolve re (run init ops) (some N) = .cert c.fp := by
+          simp [resolve, hl, KMap.contains, hg, hk]
+        obtain ⟨c2, hs2, hfp2, hcov, _⟩ := p_resolve_sound re ops N hN c.fp hres
+        have hc2 : c2 = c := by
+          have : KMap.get? (run init ops).certs c2.fp = some c2 := hs2
+          rw [hfp2, hk, hg] at this; cases this; rfl
+        subst hc2
+        refine ⟨c2, hs2, hres, hcov, ?_⟩
+        simp only [routeAllowed, Bool.not_true, Bool.false_eq_true, if_false] at hallow
+        obtain ⟨_, e, he, hcv⟩ := (p_strict_sni_iff authority _).mp hallow
+        obtain ⟨name, hname, rfl⟩ := List.mem_map.mp he
+        exact ⟨name, hname, hcv⟩
+
+/-- on a connection that was served the default certificate (no loaded
+    certificate covers the SNI) the gate falls back to "authority = SNI" -/
+theorem p_strict_sni_default_path (sni authority : Bytes) :
+    routeAllowed true (some sni) none authority = true ↔ lower (stripPort authority) = sni := by
+  simp [routeAllowed, matchesSni_iff]
+
+/-- **Counterexample to the full statement**: with an empty resolver a handshake
+    for `nocert.test` is served the default certificate (which does not cover
+    it), and the request with authority `nocert.test` is let through to routing. -/
+theorem p_strict_sni_counterexample :
+    let N : Bytes := [110,111,99,101,114,116,46,116,101,115,116]
+    resolve (fun _ _ => false) init (some N) = .default ∧
+      snapshot (fun _ _ => false) init (some N) = none ∧
+      routeAllowed true (some N) (snapshot (fun _ _ => false) init (some N)) N = true := by
+  decide
+
+
+
+-- =============================================================== part 4 ==
+-- the selection as an argmax, the strict-SNI gate composed with resolve, and
+-- what the lookup returns in every internal state of a replace
+
+/-- how specifically certificate `c` names the server name `N`: 2 by the exact
+    name, 1 by the wildcard `wildOf N`, 0 not at all -/
+def spec (c : Cert) (N : Bytes) : Nat :=
+  if N ∈ c.names then 2 else if wildOf N ∈ c.names then 1 else 0
+
+/-- the selection order for the server name `N`: more specific first, then longer-lived -/
+def RankLe (N : Bytes) (c' c : Cert) : Prop :=
+  spec c' N < spec c N ∨ (spec c' N = spec c N ∧ c'.exp ≤ c.exp)
+
+instance (N : Bytes) (c' c : Cert) : Decidable (RankLe N c' c) := by unfold RankLe; exact inferInstance
+
+/-- the specification of `resolve` over the set of loaded certificates -/
+def ResolveSpec (s : State) (N : Bytes) : Served → Prop
+  | .cert fp => ∃ c, Stored s c ∧ c.fp = fp ∧ 0 < spec c N ∧ ∀ c', Stored s c' → RankLe N c' c
+  | .default => ∀ c, Stored s c → spec c N = 0
+  | .nothing => False
+
+theorem spec_pos_iff (c : Cert) (N : Bytes) : 0 < spec c N ↔ CertCovers c N := by
+  unfold spec CertCovers Covers
+  constructor
+  · intro h
+    split at h
+    · next h1 => exact ⟨N, h1, Or.inl rfl⟩
+    · split at h
+      · next h2 => exact ⟨wildOf N, h2, Or.inr rfl⟩
+      · omega
+  · rintro ⟨name, hn, rfl | rfl⟩
+    · simp [hn]
+    · split
+      · omega
+      · simp [hn]
+
+theorem spec_le_two (c : Cert) (N : Bytes) : spec c N ≤ 2 := by
+  unfold spec; split <;> (try split) <;> omega
+
+theorem resolveSpec_of_agree (re : Bytes → Bytes → Bool) {s : State} (h : Agree s) {N : Bytes}
+    (hN : GoodHost N)
+    (hnd : resolve re s (some N) ≠ .nothing)
+    (hdef : resolve re s (some N) = .default ↔ ¬ ∃ c, Stored s c ∧ CertCovers c N) :
+    ResolveSpec s N (resolve re s (some N)) := by
+  cases hr : resolve re s (some N) with
+  | nothing => exact absurd hr hnd
+  | default =>
+    intro c hs
+    have := hdef.mp hr
+    cases hsp : spec c N with
+    | zero => rfl
+    | succ k => exact absurd ⟨c, hs, (spec_pos_iff c N).mp (by omega)⟩ this
+  | cert fp =>
+    obtain ⟨c, hs, hfp, hd⟩ := resolve_sound_of_agree re h hN hr
+    refine ⟨c, hs, hfp, ?_, ?_⟩
+    · rcases hd with ⟨hn, _⟩ | ⟨_, hn, _⟩
+      · exact (spec_pos_iff c N).mpr ⟨N, hn, Or.inl rfl⟩
+      · exact (spec_pos_iff c N).mpr ⟨wildOf N, hn, Or.inr rfl⟩
+    · intro c' hs'
+      unfold RankLe
+      rcases hd with ⟨hn, hmax⟩ | ⟨hno, hn, hmax⟩
+      · have hc : spec c N = 2 := by simp [spec, hn]
+        by_cases hn' : N ∈ c'.names
+        · have hc' : spec c' N = 2 := by simp [spec, hn']
+          right; exact ⟨by rw [hc', hc], hmax c' hs' hn'⟩
+        · left
+          rw [hc]; unfold spec; simp only [hn', if_false]; split <;> omega
+      · have hnc : N ∉ c.names := hno c hs
+        have hc : spec c N = 1 := by simp [spec, hnc, hn]
+        have hn' : N ∉ c'.names := hno c' hs'
+        by_cases hw : wildOf N ∈ c'.names
+        · have hc' : spec c' N = 1 := by simp [spec, hn', hw]
+          right; exact ⟨by rw [hc', hc], hmax c' hs' hw⟩
+        · left; rw [hc]; simp [spec, hn', hw]
+
+theorem p_resolve_spec (re : Bytes → Bytes → Bool) (ops : List Op) (N : Bytes) (hN : GoodHost N) :
+    ResolveSpec (run init ops) N (resolve re (run init ops) (some N)) :=
+  resolveSpec_of_agree re (p_agree_invariant ops) hN (p_resolve_never_dangling re ops N hN)
+    (p_default_only_if_uncovered re ops N hN)
+
+/-- the specification determines the answer up to ties: it never allows both a
+    certificate and the default, and two allowed certificates have the same
+    specificity and the same expiration -/
+theorem p_resolve_spec_unique (s : State) (N : Bytes) (fp1 fp2 : Fp) :
+    (ResolveSpec s N (.cert fp1) → ¬ ResolveSpec s N .default) ∧
+    (ResolveSpec s N (.cert fp1) → ResolveSpec s N (.cert fp2) →
+      ∃ c1 c2, Stored s c1 ∧ Stored s c2 ∧ c1.fp = fp1 ∧ c2.fp = fp2 ∧
+        spec c1 N = spec c2 N ∧ c1.exp = c2.exp) := by
+  constructor
+  · rintro ⟨c, hs, _, hpos, _⟩ hd
+    have := hd c hs
+    omega
+  · rintro ⟨c1, hs1, hf1, _, hm1⟩ ⟨c2, hs2, hf2, _, hm2⟩
+    have a := hm1 c2 hs2
+    have b := hm2 c1 hs1
+    unfold RankLe at a b
+    refine ⟨c1, c2, hs1, hs2, hf1, hf2, ?_, ?_⟩ <;> omega
+
+/-- the strict-SNI gate composed with `resolve`, for every history: a request
+    let through to routing on a connection with SNI `N` either carries an
+    authority covered (RFC 6125) by a name of exactly the certificate `resolve`
+    served for `N`, or no loaded certificate covers `N`, the default certificate
+    was served, and the authority equals the SNI (the F79 path). -/
+theorem p_strict_sni (re : Bytes → Bytes → Bool) (ops : List Op) (N : Bytes) (hN : GoodHost N)
+    (authority : Bytes)
+    (hallow : routeAllowed true (some N) (snapshot re (run init ops) (some N)) authority = true) :
+    (∃ c, Stored (run init ops) c ∧ resolve re (run init ops) (some N) = .cert c.fp ∧ CertCovers c N ∧
+        ∃ name ∈ c.names, SniCovers (normName name) (hostOf authority)) ∨
+    (resolve re (run init ops) (some N) = .default ∧
+        (¬ ∃ c, Stored (run init ops) c ∧ CertCovers c N) ∧ lower (stripPort authority) = N) := by
+  have h := p_agree_invariant ops
+  cases hsnap : snapshot re (run init ops) (some N) with
+  | some ns =>
+    rw [hsnap] at hallow
+    exact Or.inl (p_strict_sni_partial re ops N hN ns hsnap authority hallow)
+  | none =>
+    rw [hsnap] at hallow
+    right
+    have hdef : resolve re (run init ops) (some N) = .default := by
+      cases hr : resolve re (run init ops) (some N) with
+      | default => rfl
+      | nothing => exact absurd hr (p_resolve_never_dangling re ops N hN)
+      | cert fp =>
+        exfalso
+        obtain ⟨c, hs, hfp, ⟨name, hname, _⟩, _⟩ := p_resolve_sound re ops N hN fp hr
+        simp only [resolve] at hr
+        cases hl : domainLookup re (run init ops) N true with
+        | none => simp [hl] at hr
+        | some kv =>
+          simp only [hl] at hr
+          split at hr
+          · cases hr
+            have hg : KMap.get? (run init ops).certs kv.2 = some c := by rw [← hfp]; exact hs
+            have hne : c.names.isEmpty = false := by
+              cases hcn : c.names with
+              | nil => rw [hcn] at hname; simp at hname
+              | cons _ _ => rfl
+            simp [snapshot, namesForSni, hl, hg, hne] at hsnap
+          · cases hr
+    exact ⟨hdef, (p_default_only_if_uncovered re ops N hN).mp hdef,
+      (p_strict_sni_default_path N authority).mp hallow⟩
+
+/-- every fingerprint the per-name index mentions is the one being added or is stored -/
+def IdxOk (s : State) (fp : Fp) : Prop :=
+  ∀ n x, x ∈ idxGet s n → x.1 = fp ∨ KMap.contains s.certs x.1 = true
+
+theorem idxOk_of_agree {s : State} (h : Agree s) (fp : Fp) : IdxOk s fp := by
+  intro n x hx
+  obtain ⟨c, h1, _, _⟩ := (h.idx n x.1 x.2).mp hx
+  right; simp [KMap.contains, h1]
+
+theorem idxOk_sub {s s' : State} {fp : Fp} (h : IdxOk s fp) (hc : s'.certs = s.certs)
+    (hsub : ∀ n x, x ∈ idxGet s' n → x ∈ idxGet s n ∨ x.1 = fp) : IdxOk s' fp := by
+  intro n x hx
+  rcases hsub n x hx with h1 | h1
+  · rw [hc]; exact h n x h1
+  · exact Or.inl h1
+
+/-- every internal state of a replace keeps the trie/index agreement, and its
+    index only mentions the new fingerprint or stored ones -/
+theorem replaceTrace_states {s : State} (h : Agree s) (old : Option Fp) (c : Cert)
+    (hg : ∀ n ∈ c.names, GoodName n) :
+    ∀ s' ∈ replaceTrace s old c, A s' ∧ IdxOk s' c.fp := by
+  have hadd : ∀ s' ∈ addTrace s c, A s' ∧ IdxOk s' c.fp := by
+    intro s' hs'
+    unfold addTrace at hs'
+    split at hs'
+    · simp at hs'; subst hs'; exact ⟨h.a, idxOk_of_agree h _⟩
+    · rcases List.mem_append.mp hs' with hm | hm
+      · obtain ⟨k, rfl⟩ := mem_scanl _ _ _ _ hm
+        have sp := addNames_spec c.fp c.exp (c.names.take k) s h.a (take_good hg k)
+        refine ⟨sp.1, idxOk_sub (idxOk_of_agree h c.fp) sp.2.1 ?_⟩
+        intro n x hx
+        rcases (sp.2.2 n x).mp hx with h1 | ⟨_, h1⟩
+        · exact Or.inl h1
+        · exact Or.inr (by rw [h1])
+      · simp at hm; subst hm
+        have ha := agree_add h c hg
+        exact ⟨ha.a, idxOk_of_agree ha _⟩
+  have hrem : ∀ (s1 : State), Agree s1 → ∀ o, ∀ s' ∈ removeTrace s1 o, A s' ∧ IdxOk s' c.fp := by
+    intro s1 h1 o s' hs'
+    unfold removeTrace at hs'
+    cases hget : KMap.get? s1.certs o with
+    | none =>
+      simp only [hget] at hs'; simp at hs'; subst hs'
+      exact ⟨h1.a, idxOk_of_agree h1 _⟩
+    | some co =>
+      simp only [hget] at hs'
+      rcases List.mem_append.mp hs' with hm | hm
+      · obtain ⟨k, rfl⟩ := mem_scanl _ _ _ _ hm
+        have sp := removeNames_spec o (co.names.take k) s1 h1.a (take_good (h1.good o co hget) k)
+        refine ⟨sp.1, idxOk_sub (idxOk_of_agree h1 c.fp) sp.2.1 ?_⟩
+        intro n x hx
+        exact Or.inl ((sp.2.2 n x).mp hx).1
+      · simp at hm; subst hm
+        have hr := agree_remove h1 o
+        exact ⟨hr.a, idxOk_of_agree hr _⟩
+  intro s' hs'
+  unfold replaceTrace at hs'
+  split at hs'
+  · simp at hs'; subst hs'; exact ⟨h.a, idxOk_of_agree h _⟩
+  · cases old with
+    | none => exact hadd s' hs'
+    | some o =>
+      simp only [] at hs'
+      rcases List.mem_append.mp hs' with hm | hm
+      · exact hadd s' hm
+      · exact hrem (add s c) (agree_add h c hg) o s' hm
+
+/-- what a successful lookup returns in a state with the trie/index agreement -/
+theorem lookup_sound_A (re : Bytes → Bytes → Bool) {s : State} (h : A s) {fp : Fp} (hi : IdxOk s fp)
+    {N : Bytes} (hN : GoodHost N) (hc : TrieCovered re s N) :
+    ∃ kv, domainLookup re s N true = some kv ∧ Covers kv.1 N ∧
+      (kv.2 = fp ∨ KMap.contains s.certs kv.2 = true) := by
+  unfold TrieCovered at hc
+  rw [lookup_A re h hN] at hc ⊢
+  cases h1 : (idxGet s N).getLast? with
+  | some p =>
+    refine ⟨(N, p.1), by simp [lastKV, h1], Or.inl rfl, hi N p (List.mem_of_getLast? h1)⟩
+  | none =>
+    cases h2 : (idxGet s (wildOf N)).getLast? with
+    | some p =>
+      refine ⟨(wildOf N, p.1), by simp [lastKV, h1, h2], Or.inr rfl,
+        hi (wildOf N) p (List.mem_of_getLast? h2)⟩
+    | none => simp [lastKV, h1, h2] at hc
+
+/-- **every** internal state of a replace (name by name): the lookup for a server
+    name covered before and after the replace finds, under a key that covers the
+    name (`N` itself or `wildOf N`), the fingerprint of the certificate being
+    added or of a certificate that is in the store at that moment. -/
+theorem p_replace_no_gap_sound (re : Bytes → Bytes → Bool) (ops : List Op)
+    (old : Option Fp) (c0 c : Cert) (hp : prepare c0 = some c)
+    (N : Bytes) (hN : GoodHost N)
+    (hbefore : TrieCovered re (run init ops) N)
+    (hafter : TrieCovered re (replace (run init ops) old c) N) :
+    ∀ s' ∈ replaceTrace (run init ops) old c,
+      ∃ kv, domainLookup re s' N true = some kv ∧ Covers kv.1 N ∧
+        (kv.2 = c.fp ∨ KMap.contains s'.certs kv.2 = true) := by
+  intro s' hs'
+  have hst := replaceTrace_states (p_agree_invariant ops) old c (prepare_good hp).2.2.2 s' hs'
+  exact lookup_sound_A re hst.1 hst.2 hN
+    (p_replace_no_gap_stepwise re ops old c0 c hp N hN hbefore hafter s' hs')
 
 end Sozu.Tls
